@@ -101,6 +101,28 @@ func (rl *RateLimitValidator) Validate(ctx context.Context, req ports.SecurityRe
 		limit = rl.perIPRequestsPerMinute
 	}
 
+	// the global limit holds whether or not a per-IP limit is configured next to it
+	if rl.globalLimiter != nil {
+		reservation := rl.globalLimiter.Reserve()
+		if !reservation.OK() || reservation.Delay() > 0 {
+			if reservation.Delay() > 0 {
+				reservation.Cancel()
+			}
+			reported := limit
+			if reported <= 0 {
+				reported = rl.globalRequestsPerMinute
+			}
+			return ports.SecurityResult{
+				Allowed:    false,
+				RetryAfter: 60,
+				RateLimit:  reported,
+				Remaining:  0,
+				ResetTime:  now.Add(time.Minute),
+				Reason:     "Rate limit exceeded",
+			}, nil
+		}
+	}
+
 	if limit <= 0 {
 		return ports.SecurityResult{
 			Allowed:   true,
@@ -108,23 +130,6 @@ func (rl *RateLimitValidator) Validate(ctx context.Context, req ports.SecurityRe
 			Remaining: 0,
 			ResetTime: now.Add(time.Minute),
 		}, nil
-	}
-
-	if rl.globalLimiter != nil {
-		reservation := rl.globalLimiter.Reserve()
-		if !reservation.OK() || reservation.Delay() > 0 {
-			if reservation.Delay() > 0 {
-				reservation.Cancel()
-			}
-			return ports.SecurityResult{
-				Allowed:    false,
-				RetryAfter: 60,
-				RateLimit:  limit,
-				Remaining:  0,
-				ResetTime:  now.Add(time.Minute),
-				Reason:     "Rate limit exceeded",
-			}, nil
-		}
 	}
 
 	return rl.checkIPLimit(req.ClientID, limit, now, req.IsHealthCheck), nil
